@@ -59,6 +59,7 @@ type Runner struct {
 	// scenario-local (Run works on a private copy of the Runner)
 	orderSeed uint64
 	procSeq   int
+	plan2     *simos.Rule // second rule of the next faulty process
 }
 
 var usageCache sync.Map // moq binary -> map[string]bool
@@ -222,7 +223,11 @@ func (r *Runner) runMoqTo(cwd string, args []string, plan *simos.Rule, tmp strin
 	env = append(env, "SIMOS_LOG="+logPath)
 	if plan != nil {
 		pp := filepath.Join(tmp, "plan.json")
-		data, _ := json.Marshal([]*simos.Rule{plan})
+		rules := []*simos.Rule{plan}
+		if r.plan2 != nil {
+			rules = append(rules, r.plan2)
+		}
+		data, _ := json.Marshal(rules)
 		os.WriteFile(pp, data, 0o644)
 		env = append(env, "SIMOS_PLAN="+pp)
 	}
@@ -497,6 +502,18 @@ func (shared *Runner) Run(sc *Scenario, id string) ([]Finding, *Stats, error) {
 				content = []byte("package " + pkg + "\n\ntype AlphaMock struct{ Stale int }\n")
 			case "aliases":
 				content = []byte("package " + pkg + "\n\nimport ctx2 \"context\"\n\nvar _ ctx2.Context\n")
+			case "header":
+				// what stands before the package clause: a build constraint that is off
+				// by default, a licence comment and a cgo-style directive comment, on
+				// top of the present content (or a stale declaration)
+				body := cur
+				if err != nil || len(cur) < 10 {
+					body = []byte("package " + pkg + "\n\ntype AlphaMock struct{ Parked int }\n")
+				}
+				content = append([]byte("//go:build parked && !never\n// +build parked\n\n// Copyright the owners. Hand-edited.\n\n"), body...)
+			case "conflict":
+				// an unresolved merge above the package clause
+				content = append([]byte("<<<<<<< HEAD\npackage "+pkg+"\n=======\npackage "+pkg+"_old\n>>>>>>> theirs\n\n"), cur...)
 			}
 			os.MkdirAll(filepath.Dir(outAbs), 0o755)
 			if err := os.WriteFile(outAbs, content, 0o644); err != nil {
@@ -675,7 +692,9 @@ func (r *Runner) runStep(sc *Scenario, i int, step Step, w *world, M, srcDir, ou
 	}
 	args = append(args, tail...)
 	pre := snapshot(M)
+	r.plan2 = step.Fault2
 	act := r.runMoq(cwdIn(M), args, step.Fault, tmp)
+	r.plan2 = nil
 	st.MoqRuns++
 	post := snapshot(M)
 	fired := firedFaults(act.Log)
